@@ -35,6 +35,9 @@ def check(ctx, run):
             if s.startswith('std::collections::BTreeSet<') or s.startswith('std::collections::BTreeMap<'):
                 ks.add(s)
         keytypes[fn] = ks
+        if not ks:
+            run.undecided('R13.1', fn, 'key-type', 'no ordered set / map local was found in this function (the lookup structure lives in a helper or a struct?): the element key is not decided', f'{b.file}:{b.line}')
+            continue
         ok = len(ks) == 1 and '(jentry::JEntry, &[u8])' in next(iter(ks))
         (run.proved if ok else run.violation)('R13.1', fn, 'key-type', f'{next(iter(ks))}' if ok else f'the element key is {sorted(ks)}: two elements are "the same" only if both the entry word and the raw payload agree', f'{b.file}:{b.line}')
     # ---- R13.2
